@@ -518,6 +518,32 @@ fn run_polys(ctx: &Ctx) {
                 }
             }
         }
+        // degenerate scan lines: identity pose, perpendicular rays, targets on the full quarter lattice
+        // (crossing points whose y equals a vertex y exactly, but which are not on the outline)
+        {
+            let g = geom(0.0, 0.0, Some([0.0, 0.0, 0.0]), polygon.clone());
+            for px in -2..=14 {
+                for py in -2..=14 {
+                    let Some(exp_inside) = pip_exact(poly, px, py) else { continue };
+                    for (oz, dz) in [(2.0f32, -1.0f32), (-2.0, 1.0)] {
+                        let ray = Ray::new(point![px as f32 / 4.0, py as f32 / 4.0, oz], vector![0.0, 0.0, dz]);
+                        let got = g.intersects(&ray).is_some();
+                        acc.calls += 1;
+                        if exp_inside {
+                            acc.inside_hits += 1;
+                            poly_inside += 1;
+                        }
+                        if got != exp_inside {
+                            ctx.violation(
+                                &format!("ray-polygon:{}:scanline-through-vertex", if got { "false-hit" } else { "missed-hit" }),
+                                &format!("hit={} expected {} for the crossing point ({}, {}) (exact local coordinates, identity pose)", got, exp_inside, px as f32 / 4.0, py as f32 / 4.0),
+                                json!({"kind": "polygon", "polygon": poly, "tilt": 0, "azimuth": 0, "position": [0, 0, 0], "target_local": [px as f32 / 4.0, py as f32 / 4.0], "dir": [0, 0, dz]}),
+                            );
+                        }
+                    }
+                }
+            }
+        }
         if poly_inside > 0 {
             acc.nontrivial_polys += 1;
         }
